@@ -110,9 +110,13 @@ def run(check: Check) -> None:
                         sample={"formula": formula, "ensure_full_rank": efr, "variants": [list(map(str, v)) for v in variants[:3]]}, record=recorded < 25)
             recorded += 1
             # ground companions
-            p = {"kind": "c05_agree", "formula": formula, "efr": efr, "a": A0, "b": B0, "legs": "sparse+arrow"}
-            bad = replays.run(p)
-            check.obligation("agree.sparse_arrow/ground", "refuted" if bad else "ground")
-            if bad:
-                tag = bad.split(":", 1)[0]
-                check.violation(f"agree::{tag}", bad, p)
+            for extra in ({}, {"unused_level": True, "mats": ["pandas"]}, {"unused_level": True, "mats": ["narwhals"]}):
+                p = {"kind": "c05_agree", "formula": formula, "efr": efr, "a": A0, "b": B0, "legs": "sparse+arrow", **extra}
+                bad = replays.run(p)
+                check.obligation("agree.sparse_arrow/ground", "refuted" if bad else "ground")
+                if bad:
+                    tag = bad.split(":", 1)[0]
+                    site = ""
+                    if extra.get("unused_level"):
+                        site = f"::declared-but-unobserved levels,{extra['mats'][0]} materializer" + (",C()" if "C(" in formula else "")
+                    check.violation(f"agree::{tag}{site}", bad, p)
